@@ -63,7 +63,7 @@ def worker(kp, job):
 def run(chk):
     b = core.standard_build(chk)
     model = core.Model() if b.modelrun_ok else None
-    full = chk.tier == 'thorough' or bool(b.drift) or not b.proof_ok
+    full = chk.tier == 'thorough' or bool(b.drift) or not b.proof_ok or not b.modelrun_ok
     n = core.budget(chk, full, 60, 400)
     chk.rule = ('generated documents (1-4 spines, nested splits and joins, unknown spine types every 4th) x EVERY subset of the '
                 'spine ids and EVERY subset of the spine types present, out-of-range ids, unknown types, 6 combined selections, '
